@@ -362,7 +362,7 @@ def kmers_rules(repo):
     txt = [unparse(s.value) for s in sv]
     ok = "torch.ones(1, dtype=torch.float32).expand_as(idxs)" in txt and "torch.nn.functional.conv1d(scores, ws)[:, 0]" in txt
     ws = src.get("ws", [])
-    ok = ok and bool(ws) and unparse(ws[0].value) == "torch.ones(1, 1, k, dtype=torch.float32)"
+    ok = ok and bool(ws) and unparse(ws[0].value) in ("torch.ones(1, 1, k, dtype=torch.float32)", "torch.ones((1, 1, k), dtype=torch.float32)")
     out.append((holds if ok else frozen)("KMER", fi, role, "; ".join(txt), sv[0] if sv else fi.node))
     role = "window codes come from a stride-1 convolution of X with the weights"
     ix = src.get("idxs", [])
